@@ -179,6 +179,7 @@ class Eval:
         self.defined = True
         self.flags = dict(wrap=False, overflow=False, floordiv=False, divzero=False, negshift=False,
                           bigshift=False, neglshift=False)
+        self._chstack = []      # accumulators of "some value was changed by a reduction" for enclosing / and % nodes
 
     # -- bookkeeping ---------------------------------------------------------------------------
     def _flag(self, name, g, cond):
@@ -205,15 +206,21 @@ class Eval:
         r = (v - lo) % (1 << n) + lo
         return r, r != v
 
+    def _note_change(self, ch):
+        if ch is not False:
+            self._chstack[:] = [sym_or(c, ch) for c in self._chstack]
+
     def conv(self, v, t, g=True):
         """6.3.1.3 conversion of value v to type t"""
         r, ch = self._reduce(v, t)
+        self._note_change(ch)
         self._flag("wrap", g, ch)
         return r
 
     def _arith(self, v, t, g):
         """mathematical result v of an arithmetic operator performed in type t"""
         r, ch = self._reduce(v, t)
+        self._note_change(ch)
         if self.dm.signed(t):
             self._flag("overflow", g, ch)
             self._undef(g, ch)
@@ -284,6 +291,8 @@ class Eval:
                 self._undef(g, a < 0)
                 a = _bounded(ite(a < 0, 0, a), 0, dm.hi(t))
             return self._arith(a << n, t, g), t
+        if k in ("div", "mod"):
+            self._chstack.append(False)
         a, ta = self.ev(e[1], g)
         b, tb = self.ev(e[2], g)
         t = dm.uac(ta, tb)
@@ -305,6 +314,14 @@ class Eval:
                 self._flag("overflow", g, ov)
                 self._undef(g, ov)
             q, r, differs = tdivrem(a, b)
+            ch = self._chstack.pop()
+            if ch is not False and ch is not True and not (e[1][0] == "lit" and e[2][0] == "lit"):
+                # Where no conversion or reduction changed any value inside the operands (not ch), the operands
+                # ARE the exact integer values of the operand expressions, so the quotient/remainder may equally be
+                # taken from those (identity; it keeps the division term independent of the interval
+                # information attached to converted values, which the solver cannot bridge on its own).
+                q0, r0, d0 = tdivrem(self.exact(e[1]), self.exact(e[2]))
+                q, r, differs = ite(ch, q, q0), ite(ch, r, r0), ite(ch, differs, d0)
             self._flag("floordiv", g, sym_and(sym_not(z), differs))
             if k == "mod":
                 return r, t
@@ -322,6 +339,57 @@ class Eval:
         if k in cmp:
             return _int(cmp[k]()), "int"
         raise ValueError(f"unknown expression kind {k!r}")
+
+
+def _exact_methods():
+    def exact(self, e):
+        """value of e in exact (unbounded) integer arithmetic with C's operators (truncating / and %, 0/1 for
+        relational and logical operators, casts and conversions as identities).  Equals the C value of e whenever no
+        conversion/reduction inside e changes a value."""
+        k = e[0]
+        if k == "lit":
+            return self.lits[e[1]]
+        if k in ("cast", "pos"):
+            return self.exact(e[-1])
+        if k == "neg":
+            return -self.exact(e[1])
+        if k == "inv":
+            return ~self.exact(e[1])
+        if k == "lnot":
+            return _int(sym_not(_truth(self.exact(e[1]))))
+        if k == "land":
+            return _int(sym_and(_truth(self.exact(e[1])), _truth(self.exact(e[2]))))
+        if k == "lor":
+            return _int(sym_or(_truth(self.exact(e[1])), _truth(self.exact(e[2]))))
+        if k == "cond":
+            return ite(_truth(self.exact(e[1])), self.exact(e[2]), self.exact(e[3]))
+        a, b = self.exact(e[1]), self.exact(e[2])
+        if k == "add":
+            return a + b
+        if k == "sub":
+            return a - b
+        if k == "mul":
+            return a * b
+        if k in ("div", "mod"):
+            q, r, _ = tdivrem(a, b)
+            return q if k == "div" else r
+        if k in ("shl", "shr"):
+            bad = sym_or(b < 0, b > 2 * 64)
+            n = _bounded(ite(bad, 0, b), 0, 2 * 64)
+            return (a << n) if k == "shl" else (a >> n)
+        if k == "band":
+            return a & b
+        if k == "bor":
+            return a | b
+        if k == "bxor":
+            return a ^ b
+        cmp = {"lt": lambda: a < b, "le": lambda: a <= b, "gt": lambda: a > b, "ge": lambda: a >= b,
+               "eq": lambda: a == b, "ne": lambda: a != b}
+        return _int(cmp[k]())
+    return exact
+
+
+Eval.exact = _exact_methods()
 
 
 def evaluate(dm, expr, lits, dest=None):
